@@ -573,6 +573,16 @@ def assemble(unit_cfg, src="/repo/src"):
         name = "canary_%d" % n
         out.add("pub proof fn %s(%s)\n    requires\n%s\n{ assert(false); }\n" % (name, ", ".join(params), "\n".join("        %s," % t for t in pre)))
         side["canaries"].append({"name": name, "fn": fi["key"], "line_start": line0, "line_end": out.line - 1})
+    # theorems of the spec layer named in the unit's "theorem_canaries": their hypotheses must not be contradictory either
+    full_text = "".join(main_text_parts)
+    for tn in unit_cfg.get("theorem_canaries", []):
+        mt = re.search(r"pub proof fn %s\((.*?)\)\s*\n\s*requires(.*?)\n\s*ensures" % re.escape(tn), full_text, re.S)
+        if not mt:
+            raise LostAnchor("theorem %s named in theorem_canaries not found (or it has no requires / ensures)" % tn)
+        line0 = out.line
+        name = "canary_thm_%s" % tn
+        out.add("pub proof fn %s(%s)\n    requires%s\n{ assert(false); }\n" % (name, mt.group(1), mt.group(2).rstrip().rstrip(",") + ","))
+        side["canaries"].append({"name": name, "fn": "theorem " + tn, "line_start": line0, "line_end": out.line - 1})
     line0 = out.line
     out.add("pub proof fn canary_axioms() { assert(false); }\n")
     side["canaries"].append({"name": "canary_axioms", "fn": "<prelude axioms>", "line_start": line0, "line_end": out.line - 1})
